@@ -7,11 +7,27 @@ from ..propsbase import *
 ASSUMPTIONS = ["the oracle evaluates the wire expression of every register holding a secret (also inside lists, tuples, arrays) "
                "on the backend's recorded lists and compares with the reported value modulo p, after every executed case, "
                "including cases that raise later and cases in ignore-errors mode / under false guards",
+               "powers with PUBLIC exponents 0 / 1 / 2 (`x ** 0` hands out the constant one of the current region, `x ** 1` the operand object) "
+               "inside guarded() regions of every guard value and inside the branch functions of selections `if_then_else(c, f, g)` "
+               "(gen/progs.py guarded_case, thunk_case `pow_int`): registers created under a false guard are judged like all others, and so is "
+               "the merged result of the selection",
                "the public LinComb.from_bits is called on lists whose elements are secrets with values outside {0,1}: carry-save digits "
                "xi+yi, signed digits, limbs 0..7, small negative integers, mixed with proper bits (gen/progs.py from_bits_digits_case); "
                "the model's fromBits takes arbitrary linear combinations, so these cases are model-backed"]
 PARTIAL = []
 LEVELS = "VSW"
+
+
+def region_mode(case, i):
+    """kind of the innermost region enclosing instruction i: guarded() region, branch function of a selection, or none"""
+    stack = []
+    for t in case.instrs[:i]:
+        w = t.split()[0]
+        if w in ("genter", "fthen", "felse"):
+            stack.append("guarded" if w == "genter" else "branch-function")
+        elif w in ("gleave", "fmid", "fleave") and stack:
+            stack.pop()
+    return stack[-1] if stack else "plain"
 
 
 def explore(ctx, extended=False, focus=None):
@@ -26,6 +42,9 @@ def explore(ctx, extended=False, focus=None):
     # from_bits on lists whose elements are secrets with values outside {0,1} (carry-save / signed digits, limbs); comparisons on the
     # width boundary of check_positive under true guards
     mix.append((2, progs.from_bits_digits_case)); mix.append((1, progs.wide_compare_guarded_case))
+    # selections whose branches are functions (one branch function always runs under a false guard; its shadow values feed the
+    # multiplication hint of the merged, LIVE result)
+    mix.append((2, progs.thunk_case))
     for r in execute_backends(ctx.rnd, n, "c04x" if extended else "c04_", mix, corpus_cases("C04")):
         account(ex, r)
         ex.count(f"backend:{r.case.meta.get('backend')}")
@@ -33,7 +52,7 @@ def explore(ctx, extended=False, focus=None):
         for i in r.incoh:
             sig = instr_sig(r.case, r.regs, i)
             sig["backend"] = r.case.meta.get("backend", "snarkjs")
-            sig["mode"] = "ignore" if r.case.cfg["ign"] else ("guarded" if in_guard(r.case, i) else "plain")
+            sig["mode"] = "ignore" if r.case.cfg["ign"] else (region_mode(r.case, i))
             ex.violations.append(Violation(sig, f"register r{i} ({r.case.instrs[i]}) reports {r.regs[i][:80]} but its wire "
                                                 f"expression evaluates differently on the recorded witness",
                                            {"case": r.case.line(), "register": i, "backend": r.case.meta.get("backend", "snarkjs")}))
